@@ -97,7 +97,7 @@ def run(tier, replay=None):
         progs = [json.load(open(replay))["witness"]["files"]]
     # library entry point (in memory)
     hc = [{"id": i + 1, "mode": "observe", "files": f, "base": "main.s", "want": ["items"]} for i, f in enumerate(progs)]
-    tp, hevs = run_harness(rvh, hc, wd, "lib")
+    tp, hevs = run_harness_par(rvh, hc, wd, "lib")
     evs = []
     nruns = 0
     with tempfile.TemporaryDirectory(dir=WORK) as td:
